@@ -28,9 +28,9 @@ func init() {
 					Text: "The sequences to iterate over.",
 				},
 			},
-			Return: "boolean",
-			Text: `__some__ returns _true_ if the _predicate_ applied to each element of
-_sequences_ in order returns true at least once.`,
+			Return: "object",
+			Text: `__some__ returns the first non-nil value returned by the _predicate_ applied
+to each element of _sequences_ in order or _nil_ if the _predicate_ never returns true.`,
 			Examples: []string{
 				`(some #'characterp "abc") => t`,
 				"(some '< '(1 2 3) '(1 1 4) '(1 5 6)) => t",
@@ -77,8 +77,8 @@ iter:
 				slip.TypePanic(s, depth, "sequence", args[i], "string", "list", "vector")
 			}
 		}
-		if predicate.Call(s, pargs, d2) != nil {
-			return slip.True
+		if v := predicate.Call(s, pargs, d2); v != nil {
+			return v
 		}
 	}
 	return nil
